@@ -185,8 +185,16 @@ macro_rules! c07_exp {
                 vassert!(Exp::<$f>::new(4.0).unwrap().lambda_inverse == 0.25 && Exp::<$f>::new(0.5).unwrap().lambda_inverse == 2.0
                     && Exp::<$f>::new(0.0).unwrap().lambda_inverse == <$f>::INFINITY, "Exp: lambda_inverse is not 1/lambda");
                 let x: $f = d.sample(&mut rng);
-                vassert!(rng.pos == 1 && flog_n() == 1, "Exp: number of standard draws depends on the parameter");
-                let (_, _, g) = flog_get(0);
+                let g: f64 = if native() {
+                    // real Exp1 draw on the same words
+                    let mut r2 = SymRng::from_words(rng.words, NW);
+                    let e: $f = Exp1.sample(&mut r2);
+                    vassert!(rng.pos == r2.pos, "Exp: number of words consumed differs from that of the Exp1 draw");
+                    e as f64
+                } else {
+                    vassert!(rng.pos == 1 && flog_n() == 1, "Exp: number of standard draws depends on the parameter");
+                    flog_get(0).2
+                };
                 vassert!(biteq64(x as f64, ((g as $f) * d.lambda_inverse) as f64), "Exp: sample is not Exp1 draw * lambda_inverse");
                 kani::cover!(g == 2.0, "g = 2");
             }
